@@ -84,7 +84,7 @@ Qed.
 
 Lemma pm_lookup_none pm path c : fst c = None \/ snd c = None -> pm_lookup pm path c = None.
 Proof.
-  intro N. unfold pm_lookup. destruct (pm_find path pm); [|reflexivity].
+  intro N. unfold pm_lookup. destruct (pm_find path pm) as [found|]; [|reflexivity].
   destruct c as [[u|] [p|]]; try reflexivity. cbn in N. destruct N; discriminate.
 Qed.
 
@@ -131,10 +131,9 @@ Lemma history_independent_l P k c j prev pm q p :
   model_step P k c j prev pm q p = model_step P k c j prev [] q p.
 Proof.
   unfold model_step. destruct k; try reflexivity.
-  destruct c as [[u|] [pw|]];
-    try (rewrite !(pm_lookup_none _ _ _ (or_introl eq_refl)); reflexivity);
-    try (rewrite !(pm_lookup_none _ _ _ (or_intror eq_refl)); reflexivity).
-  rewrite !pm_lookup_send. reflexivity.
+  destruct c as [[u|] [pw|]]; [rewrite !pm_lookup_send; reflexivity | | |];
+    cbn [pm_after]; unfold pm_lookup; cbn [pm_find];
+    destruct (pm_find (q_path q) pm) as [found|]; reflexivity.
 Qed.
 
 (* ---------- the lookup before 2ac69bb (regression witnesses) ---------- *)
